@@ -92,6 +92,7 @@ type sessInfo struct {
 	lastCtr *stubTr
 	lastCm  *msg.NatHoleClient
 	vmMapped, cmMapped []string
+	base    []int // inbox sizes when the sid was handed over
 }
 
 type scenario struct {
@@ -325,6 +326,10 @@ func (s *scenario) deliver(x *sessInfo) bool {
 	if x == nil || x.state != "notify" || x.proxy == nil || !x.proxy.alive {
 		return false
 	}
+	x.base = nil
+	for _, t := range s.trs {
+		x.base = append(x.base, t.count())
+	}
 	select {
 	case sid := <-x.proxy.ch:
 		// several sessions may be blocked on the same channel: find which one got through
@@ -361,7 +366,7 @@ func (s *scenario) complete(x *sessInfo) {
 	if x == nil || x.state != "wait" || x.lastCtr == nil {
 		return
 	}
-	nv, nc := x.vtr.count(), x.lastCtr.count()
+	nv, nc := x.base[x.vtr.id], x.base[x.lastCtr.id]
 	same := x.vtr == x.lastCtr
 	deadline := time.Now().Add(3 * time.Second)
 	for time.Now().Before(deadline) {
@@ -494,14 +499,22 @@ func (s *scenario) run() {
 		switch k := g.Intn(10); {
 		case k == 0: // pre-check
 			s.visitor(s.mkVisitor([]string{"p0", "p1", "nosuch"}[g.Intn(3)], true, true), tr, []string{"alice", "bob", "mallory"}[g.Intn(3)])
-		case k == 1: // refused: bad signature / unknown proxy / user not allowed
-			switch g.Intn(3) {
+		case k == 1 || k == 2: // refused: bad signature / unknown proxy / user not allowed
+			var x *sessInfo
+			switch g.Intn(4) {
+			case 3:
+				x = s.visitor(s.mkVisitor("p0", false, false), tr, "alice")
 			case 0:
-				s.visitor(s.mkVisitor("p0", false, false), tr, "alice")
+				x = s.visitor(s.mkVisitor("p0", false, false), tr, "alice")
 			case 1:
-				s.visitor(s.mkVisitor("nosuch", true, false), tr, "alice")
+				x = s.visitor(s.mkVisitor("nosuch", true, false), tr, "alice")
 			default:
-				s.visitor(s.mkVisitor("p0", true, false), tr, "mallory")
+				x = s.visitor(s.mkVisitor("p0", true, false), tr, "mallory")
+			}
+			if x != nil { // accepted after all (e.g. allowUsers = "*"): let it run into the owner's-answer timeout
+				if s.deliver(x) {
+					s.timeout(x)
+				}
 			}
 		case k <= 6: // a full session
 			x := s.visitor(s.mkVisitor("p0", true, false), tr, "alice")
@@ -550,16 +563,29 @@ func (s *scenario) run() {
 				x := s.visitor(s.mkVisitor("p0", true, false), tr, "alice")
 				s.closeProxy("p0")
 				if x != nil {
-					time.Sleep(time.Duration(nathole.NatHoleTimeout)*time.Second + 250*time.Millisecond)
 					s.observe()
+					// nobody will ever receive the sid: the hand-over must be given up after NatHoleTimeout
+					time.Sleep(time.Duration(nathole.NatHoleTimeout)*time.Second + 250*time.Millisecond)
+					stuck := false
 					for _, id := range s.c.VerifSessionIDs() {
 						if id == x.real {
-							s.count("stuck_session_after_owner_left")
-							s.mu.Lock()
-							s.stuck = append(s.stuck, strings.Join(s.evs, "; "))
-							s.mu.Unlock()
+							stuck = true
 						}
 					}
+					if stuck {
+						s.count("stuck_session_after_owner_left")
+						s.fails = append(s.fails, map[string]string{"key": "session-stuck-after-owner-left",
+							"what": "the owner closed between HandleVisitor's lookup and the hand-over of the sid; NatHoleTimeout later the session is still in the table (HandleVisitor blocked for ever in the send)",
+							"case": strings.Join(s.evs, "; ")})
+						s.mu.Lock()
+						s.stuck = append(s.stuck, strings.Join(s.evs, "; "))
+						s.mu.Unlock()
+					} else {
+						s.ev("EvGiveUp %d", x.idx)
+						x.state = "done"
+						s.count("handover_given_up")
+					}
+					s.observe()
 				}
 			} else {
 				s.closeProxy("p0")
@@ -593,6 +619,8 @@ Definition NEVREPORT := Eval vm_compute in count_ev 9 cases.
 Print NEVREPORT.
 Definition NEVCLOSE := Eval vm_compute in count_ev 11 cases.
 Print NEVCLOSE.
+Definition NEVGIVEUP := Eval vm_compute in count_ev 12 cases.
+Print NEVGIVEUP.
 `
 
 func runController(cfg *hx.RunCfg) error {
